@@ -94,29 +94,7 @@ func repointed(c Case) bool {
 	return false
 }
 
-func genRandom(t *rapid.T) Case {
-	n := rapid.IntRange(5, 8).Draw(t, "n")
-	c := Case{N: n, Dialect: rapid.SampledFrom([]string{"mysql", "postgres"}).Draw(t, "dialect"), Mode: rapid.IntRange(0, 3).Draw(t, "mode"),
-		Multi: rapid.Bool().Draw(t, "multi"), Names: rapid.IntRange(0, 1).Draw(t, "names"), Split: rapid.IntRange(0, 2).Draw(t, "split") == 0}
-	if c.Dialect == "mysql" {
-		c.Flavour = rapid.SampledFrom([]string{"", "", "mysql8", "mysql57", "maria", "tidb"}).Draw(t, "flavour")
-	}
-	for i := 0; i < n; i++ {
-		c.Role = append(c.Role, rapid.SampledFrom([]int{kept, kept, created, dropped}).Draw(t, "role"))
-	}
-	dens := rapid.IntRange(1, 5).Draw(t, "density")
-	for i := 0; i < n; i++ {
-		for j := 0; j < n; j++ {
-			if rapid.IntRange(0, 9).Draw(t, "fe") < dens && c.Role[i] != created && c.Role[j] != created {
-				c.FromE = append(c.FromE, Edge{i, j})
-			}
-			if rapid.IntRange(0, 9).Draw(t, "te") < dens && c.Role[i] != dropped && c.Role[j] != dropped {
-				c.ToE = append(c.ToE, Edge{i, j})
-			}
-		}
-	}
-	return c
-}
+func genRandom(t *rapid.T) Case { return GenRandom(t) }
 
 func mkCheck(col *ev.Collector) func(Case) error {
 	return func(c Case) error {
